@@ -34,8 +34,8 @@ extern "C" void vp_setup() {
   cell2.store(new Node(6));
 #endif
 }
-extern "C" void vp_thread1() {
-#ifdef CROSS
+static void role_a() {
+#if defined(CROSS) && !defined(HOLDER3)
   GP hold; hold.acquire(cell2);        // keeps thread 2's retired node pending until the end of this function
 #endif
   Node* n = new Node(4);
@@ -44,9 +44,11 @@ extern "C" void vp_thread1() {
   retire_private(2);
   pump(PUMP);
 }
-extern "C" void vp_thread2() {
+static void role_b() {
 #ifdef CROSS
+#ifndef HOLDER3
   GP hold; hold.acquire(cell);         // keeps thread 1's retired node pending until the end of this function
+#endif
   { Node* n7 = new Node(7); GP g; g.acquire(cell2); MP e = g;
     if (cell2.compare_exchange_strong(e, MP(n7))) g.reclaim(Del{106}); else { g.reset(); delete n7; } }
 #else
@@ -74,3 +76,19 @@ extern "C" void vp_final() {
 #endif
   for (int i = 1; i < 8; ++i) vp_assert(deleted[i] <= 1, 20 + i);
 }
+
+#ifndef HOLDER3
+extern "C" void vp_thread1() { role_a(); }
+extern "C" void vp_thread2() { role_b(); }
+#else
+extern "C" void vp_thread2() { role_a(); }
+extern "C" void vp_thread3() { role_b(); }
+// first thread: holds guards on both cells for its whole life, so that both retiring threads exit with a pending node
+// (two concurrent hand-overs of pending nodes to the global list)
+extern "C" void vp_thread1() {
+  GP h1; h1.acquire(cell);
+  GP h2; h2.acquire(cell2);
+  if (h1) vp_assert(h1->id >= 1, 2);
+  if (h2) vp_assert(h2->id >= 1, 3);
+}
+#endif
